@@ -1,10 +1,12 @@
 import GbVerif.Model.JitIp
+import GbVerif.Model.JitPaths
 /-
 C01 (stack pointer bookkeeping of translated code): r12 holds the guest SP.  Apart from the three instructions that load
 SP with a computed value (LD SP,nn / LD SP,HL / ADD SP,e), translated code changes r12 only by `add r12, n` / `sub r12, n`
 / 16-bit `inc` / `dec`, masks it with `and r12, 0xffff`, or rotates it by 8 and back (to read its high byte).  The net
 change modulo 2^16 over every path through the code is read off the emitted code and compared with what the interpreter
-model does to SP (both branch outcomes), like `JitCycles` does for the cycle charges.
+model does to SP (both branch outcomes), like `JitCycles` does for the cycle charges.  Walked by `JitPaths.paths`;
+soundness for executions of the x86 model: `Proofs/X86Sp.lean`.
 -/
 namespace GbVerif.JitSp
 open GbVerif.X86 GbVerif.JitCycles
@@ -15,49 +17,25 @@ def writesR12Otherwise : Instr → Bool
   | .aluI .and .q 12 [255, 255, 0, 0] false => false
   | .incdec16 _ 12 => false
   | .sh32 .rol 12 8 | .sh32 .ror 12 8 => false
-  | .aluI op _ 12 _ _ => op != .cmp
-  | .alu op _ 12 _ => op != .cmp
-  | .alu8 op (.lo 12) _ => op != .cmp
-  | .alu8i op (.lo 12) _ => op != .cmp
-  | .not8 (.lo 12) | .incdec8 _ (.lo 12) | .sh8 _ (.lo 12) _ | .sh32 _ 12 _ => true
-  | .mov8 (.lo 12) _ | .mov8i (.lo 12) _ | .mov _ 12 _ | .movi16 12 _ | .movabs 12 _ | .load _ 12 _ _ | .sete (.lo 12) | .pop 12 => true
-  | _ => false
+  | ins => destReg ins == some 12
 
-/-- net SP changes (mod 2^16) over the paths from instruction `i` to the end of the code; `rot` = r12 is currently
-rotated by 8 to the left (1) or to the right (2) (no arithmetic until it is rotated back; a path may not end rotated) -/
-def pathDeltas (code : List (Nat × Instr)) (endOff : Nat) : Nat → Nat → Nat → Nat → Option (List Nat)
-  | _, 0, _, _ => none
-  | i, fuel+1, acc, rot =>
-    match code[i]? with
-    | none => if i == code.length && rot == 0 then some [acc] else none
-    | some (_, ins) =>
-      let nextOff := match code[i+1]? with | some (o, _) => o | none => endOff
-      if writesR12Otherwise ins then none else
-      match ins with
-      | .jcc _ rel =>
-        if rel ≥ 128 then none else
-        match indexOf code endOff (nextOff + rel) with
-        | some j => if j ≤ i then none else
-          match pathDeltas code endOff (i+1) fuel acc rot, pathDeltas code endOff j fuel acc rot with
-          | some a, some b => some (a ++ b)
-          | _, _ => none
-        | none => none
-      | .jmp rel =>
-        if rel ≥ 128 then none else
-        match indexOf code endOff (nextOff + rel) with
-        | some j => if j ≤ i then none else pathDeltas code endOff j fuel acc rot
-        | none => none
-      | .aluI .add .q 12 [n] true => if n ≥ 128 || rot != 0 then none else pathDeltas code endOff (i+1) fuel ((acc + n) % 65536) rot
-      | .aluI .sub .q 12 [n] true => if n ≥ 128 || rot != 0 then none else pathDeltas code endOff (i+1) fuel ((acc + 65536 - n) % 65536) rot
-      | .incdec16 dec 12 => if rot != 0 then none else pathDeltas code endOff (i+1) fuel ((acc + (if dec then 65535 else 1)) % 65536) rot
-      | .sh32 .rol 12 8 => if rot == 0 then pathDeltas code endOff (i+1) fuel acc 1 else if rot == 2 then pathDeltas code endOff (i+1) fuel acc 0 else none
-      | .sh32 .ror 12 8 => if rot == 0 then pathDeltas code endOff (i+1) fuel acc 2 else if rot == 1 then pathDeltas code endOff (i+1) fuel acc 0 else none
-      | _ => pathDeltas code endOff (i+1) fuel acc rot
+/-- abstract state: net SP change so far (mod 2^16) and `rot` = r12 is currently rotated by 8 to the left (1) or to the
+right (2) (no arithmetic until it is rotated back; a path may not end rotated) -/
+abbrev SpSt := Nat × Nat
+
+def trSp (ins : Instr) (a : SpSt) : Option SpSt :=
+  if writesR12Otherwise ins then none else
+  match ins with
+  | .aluI .add .q 12 [n] true => if n ≥ 128 || a.2 != 0 then none else some ((a.1 + n) % 65536, a.2)
+  | .aluI .sub .q 12 [n] true => if n ≥ 128 || a.2 != 0 then none else some ((a.1 + 65536 - n) % 65536, a.2)
+  | .aluI .and .q 12 [255, 255, 0, 0] false => if a.2 != 0 then none else some a
+  | .incdec16 dec 12 => if a.2 != 0 then none else some ((a.1 + (if dec then 65535 else 1)) % 65536, a.2)
+  | .sh32 .rol 12 8 => if a.2 == 0 then some (a.1, 1) else if a.2 == 2 then some (a.1, 0) else none
+  | .sh32 .ror 12 8 => if a.2 == 0 then some (a.1, 2) else if a.2 == 1 then some (a.1, 0) else none
+  | _ => some a
 
 def jitSp (tokens : List Nat) : Option (List Nat) :=
-  match decodeCode tokens with
-  | none => none
-  | some code => (pathDeltas code (bytesOf tokens) 0 (code.length + 2) 0 0).map norm
+  JitPaths.analyse trSp (0, 0) (fun a => if a.2 == 0 then some a.1 else none) tokens
 
 /-- what the interpreter model does to SP (mod 2^16), from flag byte `f` -/
 def interpSpWith (op : Op) (len f : Nat) : Option Nat :=
